@@ -146,7 +146,7 @@ func (w *c04World) round(kind byte) bool {
 		t0 := time.Now()
 		rec := w.sys.call("GET", "/c04", cl+":4000", nil, nil)
 		now := time.Now()
-		if vh.IsSim && now.Sub(t0) != 0 {
+		if vh.IsSim && vh.Took(now.Sub(t0)) {
 			vh.FlagAnomaly()
 		}
 		w.o.Obs("requests", 1)
